@@ -595,4 +595,91 @@ def rule_e(ctx):
     return r
 
 
-RULES = [rule_a, rule_b, rule_c, rule_d, rule_e]
+
+def _units_trivially_compatible(b, guard, site_bb):
+    """On every path to site_bb the two units guarded by `guard` were found equal, or both were found to be Unit::None."""
+    ua = an.trace_operand(b, guard.args[0])
+    ub = an.trace_operand(b, guard.args[1])
+    eq = none_a = none_b = False
+    for kind, obj, truth, d in an.bool_guard_calls(b, site_bb):
+        if kind != "call" or an.tail2(obj.callee) not in ("PartialEq::eq", "PartialEq::ne") or len(obj.args) != 2:
+            continue
+        is_eq = truth if an.tail2(obj.callee) == "PartialEq::eq" else (not truth)
+        if not is_eq:
+            continue
+        x, y = an.trace_operand(b, obj.args[0]), an.trace_operand(b, obj.args[1])
+        if {repr(x), repr(y)} == {repr(ua), repr(ub)}:
+            eq = True
+        for u, other in ((x, y), (y, x)):
+            if "Unit::None" in repr(other) or (other.root[0] == "const" and "None" in str(other.root[1])):
+                if repr(u) == repr(ua):
+                    none_a = True
+                if repr(u) == repr(ub):
+                    none_b = True
+    return eq or (none_a and none_b)
+
+
+def _compatible_on_every_path(prog, b, guard, site_bb):
+    """Predicate-sensitive version: every valuation reaching site_bb has comparable()==true on the pair, equal units, or a unitless side."""
+    from .. import psa as _psa
+    A = an.trace_operand(b, guard.args[0])
+    B = an.trace_operand(b, guard.args[1])
+    classify = conv.make_classifier(prog, A, B)
+    vals, complete = _psa.valuations_at(b, site_bb, classify)
+    if not complete or not vals:
+        return False
+    pk = conv.pair_key(A, B)
+    for v in vals:
+        if v.get(("CMP", pk)) is True or v.get(("COMPAT", pk)) is True or v.get(("EQ", pk)) is True:
+            continue
+        if v.get(("ISNONE", A.key())) is True or v.get(("ISNONE", B.key())) is True:
+            continue
+        return False
+    return True
+
+
+def rule_f(ctx):
+    r = RuleResult("C08-f", "two numbers are only combined into a number after the comparability test: in every function that guards a pair of operand units with "
+                   "comparable(), each SassNumber built in that pair's arm lies on the test's true edge (no result escapes before the `Incompatible units` error)")
+    prog = ctx.prog()
+    n = 0
+    for b in prog.bodies.values():
+        if b.crate != "grass_compiler" or b.is_closure():
+            continue
+        guards = [c for c in b.calls() if (c.name() or "").endswith("unit::Unit::comparable")]
+        if not guards:
+            continue
+        aggs = [(bb, st) for bb, i, pl, rv, st in b.assignments() if rv["k"] == "agg" and rv.get("adt", "").endswith("sass_number::SassNumber")]
+        if not aggs:
+            continue
+        for g in guards:
+            # arm entry: nearest dominator of the guard that is the direct target of an enum-discriminant switch
+            arm = None
+            for d in sorted(b.dominators(g.bb), key=lambda x: -len(b.dominators(x))):
+                preds = b.preds()[d]
+                if any(b.term(p)["k"] == "switch" and any(k == "discr" for k, o, pol in an.cond_sources(b, Operand(b.term(p)["d"]))) for p in preds):
+                    arm = d
+                    break
+            if arm is None:
+                continue
+            true_edges = [(sw, common.bool_edge(b, sw, pol)) for sw, pol in common.switches_on_call(b, g)]
+            if not true_edges:
+                r.undecide("%s|comparable-result-untested" % b.path, "the result of comparable() is not branched on directly", g.loc())
+                continue
+            for bb, st in aggs:
+                if not (bb == arm or b.dominates(arm, bb)):
+                    continue
+                n += 1
+                key = "%s|number-built-under-comparable" % b.path
+                if any(an.edge_dominates(b, e, bb) for e in true_edges):
+                    r.ok(key)
+                elif _compatible_on_every_path(prog, b, g, bb):
+                    r.ok(key, how="every path established comparable / equal units / a unitless side")
+                else:
+                    r.violate(key, "%s builds a number from two numeric operands at line %d on a path that has not passed comparable(): for incompatible units the "
+                              "`Incompatible units` error is skipped and a value is silently computed" % (b.path, st["span"]["l"]), "%s:%d" % (b.file, st["span"]["l"]))
+    r.floor("numbers built in comparable()-guarded arms", n, 8)
+    return r
+
+
+RULES = [rule_a, rule_b, rule_c, rule_d, rule_e, rule_f]
